@@ -199,22 +199,63 @@ def rule_rk_registry(prog: Program, report: Report) -> None:
     report.expect_at_least("RK-registry", "Step subclasses", len(subs), 8)
 
 
-def _imported(prog: Program, rel: str) -> bool:
-    modname = rel[:-3].replace("/", ".")
-    short = modname.rsplit(".", 1)[1]
-    for m in prog.modules.values():
-        if m.rel == rel or not prog.in_scope(m.rel):
-            continue
-        for n in ast.walk(m.tree):
+def _module_level_imports(prog: Program, m) -> set[str]:
+    """rels of package modules imported by module-level statements of m
+    (imports inside functions or under TYPE_CHECKING do not run at import time)."""
+    out: set[str] = set()
+    pkg = m.name.split(".")
+    base = pkg if m.rel.endswith("__init__.py") else pkg[:-1]
+
+    def rel_of(mod: str) -> str | None:
+        for cand in (mod.replace(".", "/") + ".py", mod.replace(".", "/") + "/__init__.py"):
+            if cand in prog.modules:
+                return cand
+        return None
+
+    def visit(stmts) -> None:
+        for n in stmts:
             if isinstance(n, ast.ImportFrom):
-                target = ("." * n.level) + (n.module or "")
-                if n.module and (n.module == modname or n.module.endswith("." + short) or n.module == short):
-                    return True
-                if any(a.name == short for a in n.names) and (n.level > 0 or (n.module or "").startswith("prosemirror")):
-                    return True
-            elif isinstance(n, ast.Import) and any(a.name == modname for a in n.names):
-                return True
-    return False
+                mod = ".".join(base[: len(base) - (n.level - 1)] + ([n.module] if n.module else [])) if n.level else (n.module or "")
+                r = rel_of(mod)
+                if r:
+                    out.add(r)
+                for a in n.names:
+                    r2 = rel_of(mod + "." + a.name)
+                    if r2:
+                        out.add(r2)
+            elif isinstance(n, ast.Import):
+                for a in n.names:
+                    r = rel_of(a.name)
+                    if r:
+                        out.add(r)
+            elif isinstance(n, ast.If) and "TYPE_CHECKING" not in src(n.test):
+                visit(n.body)
+                visit(n.orelse)
+            elif isinstance(n, ast.Try):
+                visit(n.body)
+    visit(m.tree.body)
+    # importing a submodule imports its packages' __init__ first
+    for r in list(out):
+        parts = r.split("/")
+        for i in range(1, len(parts)):
+            init = "/".join(parts[:i]) + "/__init__.py"
+            if init in prog.modules:
+                out.add(init)
+    return out
+
+
+def _imported(prog: Program, rel: str) -> bool:
+    """Is `rel` imported (transitively, at module level) when `prosemirror.transform` is imported?"""
+    roots = ["prosemirror/transform/__init__.py"]
+    seen = set(roots)
+    st = list(roots)
+    while st:
+        r = st.pop()
+        for nx in _module_level_imports(prog, prog.modules[r]):
+            if nx not in seen:
+                seen.add(nx)
+                st.append(nx)
+    return rel in seen
 
 
 def rule_rk_kinds(prog: Program, report: Report) -> None:
